@@ -347,7 +347,52 @@ func (w *World) Balance(n *Node, addr string) (spice.Melange, error) {
 	if before != after {
 		w.c.Violate("C06", "balance-query-changed-ledger", "CalculateBalance changed the ledger snapshot", map[string]interface{}{"seed": w.c.Seed})
 	}
+	w.balanceOracle(n, addr, b.Spice, err)
 	return b.Spice, err
+}
+
+// balanceOracle: the reported value must equal checkpoint + in - out over some current tip and its
+// ancestors (math/big over the snapshot's graph edges); an error is allowed only if that sum is negative
+// for some tip.
+func (w *World) balanceOracle(n *Node, addr string, got spice.Melange, err error) {
+	s := n.lastSnap
+	if s == nil || len(s.Leaves) == 0 {
+		return
+	}
+	live := liveMap(s)
+	par := parentsByEdges(s)
+	cp := new(big.Int)
+	if m, ok := s.CpFunds[addr]; ok {
+		cp = bval(m)
+	}
+	okMatch, negative := false, false
+	var refs []string
+	for _, tip := range s.Leaves {
+		vs := []*accountant.Vertex{live[tip]}
+		for a := range ancestorsOf(tip, par) {
+			if v := live[a]; v != nil {
+				vs = append(vs, v)
+			}
+		}
+		in, out := flow(addr, vs)
+		ref := new(big.Int).Add(cp, in)
+		ref.Sub(ref, out)
+		refs = append(refs, ref.String())
+		if ref.Sign() < 0 {
+			negative = true
+		} else if err == nil && ref.Cmp(bval(got)) == 0 {
+			okMatch = true
+		}
+	}
+	info := w.replayInfo(n, "balance")
+	switch {
+	case err == nil && !canon(got):
+		w.c.Violate("C06", "balance-not-canonical", fmt.Sprintf("balance %d:%d is not canonical", got.Currency, got.SupplementaryCurrency), info)
+	case err == nil && !okMatch:
+		w.c.Violate("C06", "balance-differs-from-reference", fmt.Sprintf("node %d reported %v for %s; reference per tip %v", n.id, bval(got), w.A(addr), refs), info)
+	case err != nil && !negative:
+		w.c.Violate("C06", "balance-error-on-representable-sum", fmt.Sprintf("node %d reported %v for %s although the reference sums per tip are %v", n.id, err, w.A(addr), refs), info)
+	}
 }
 
 func (w *World) Truncate(n *Node) error {
